@@ -38,6 +38,7 @@ type action struct {
 	feeOf  *common.Address // withdrawFee target
 	wdAddr *common.Address // withdraw: address and the (lower-cased) peers it lists
 	wdPubs []string
+	mod    *modelOp // what the independent release model learns when the call succeeds
 }
 
 type hist struct {
@@ -56,7 +57,10 @@ type hist struct {
 	deposited, withdrawn map[common.Address]uint64
 	goneQuit, goneBlack  map[string]bool // peers removed from the pool by normalQuit / blackQuit
 	quitOrBlack          bool
-	warm                 bool // during the warm-up epochs (judged, but not counted as generated epochs)
+	mdl                  *model             // independent release model (C11)
+	topUp                map[pairKey]int    // 1: un-authorized more than the same epoch's top-up, 2: an epoch later
+	topUpKind            map[pairKey]string // node status at that moment
+	warm                 bool               // during the warm-up epochs (judged, but not counted as generated epochs)
 	nt10, nt11           bool
 	counts               map[string]int
 }
@@ -159,6 +163,37 @@ func (h *hist) exec(a *action) bool {
 	if (a.kind == "quitNode" || a.kind == "blackNode") && ok {
 		h.quitOrBlack = true
 	}
+	h.mdl.apply(a.mod)
+	if epoch {
+		for k, st := range h.topUp {
+			if st == 1 {
+				h.topUp[k] = 2
+			}
+		}
+	}
+	if a.mod != nil && a.mod.op == "unauth" {
+		// coverage: un-authorizing more than what was topped up in the same epoch splits the amount between the
+		// immediately unfrozen NewPos part and the part frozen until the next epoch(s)
+		seen := map[string]bool{}
+		for i, pub := range a.mod.pubs {
+			p, in := pre.pool[pub]
+			if !in || seen[pub] {
+				continue
+			}
+			seen[pub] = true
+			for j := range pre.auth {
+				e := &pre.auth[j]
+				if e.pub == pub && e.addr == a.mod.ad && e.newp > 0 && a.mod.amts[i] > e.newp && e.staked() >= uint64(pre.gp2.MinAuthorizePos) {
+					kind := "consensus"
+					if p.status == stCandidate {
+						kind = "candidate"
+					}
+					h.class("unAuthorizeForPeer:ok:exceedsTopUp:" + kind)
+					h.topUp[pairKey{e.addr, pub}], h.topUpKind[pairKey{e.addr, pub}] = 1, kind
+				}
+			}
+		}
+	}
 
 	switch h.prop {
 	case "C11":
@@ -220,6 +255,24 @@ func (h *hist) judgeC11(a *action, pre, post *snap) {
 		}
 		if paid > unfrozen {
 			h.fail("%s paid %d ONT to %s although only %d was unfrozen for the listed peers", a.desc, paid, h.w.name(ad), unfrozen)
+		}
+		// independent release model: per pair by the amounts of the call, per address by the ONT really received
+		for i, pub := range a.mod.pubs {
+			k := pairKey{ad, pub}
+			if h.mdl.taken[k] > h.mdl.released[k] {
+				h.fail("%s: %s has now withdrawn %d ONT from its position on %s, but the calls that succeeded so far released at most %d there (un-authorized / reduced / peer exited); %d is still staked on it",
+					a.desc, h.w.name(ad), h.mdl.taken[k], h.w.nodeName(pub), h.mdl.released[k], h.mdl.staked[k])
+			}
+			if a.mod.amts[i] > 0 && h.topUp[k] == 2 {
+				h.class("withdraw:ok:afterTopUpUnauth:" + h.topUpKind[k])
+				delete(h.topUp, k)
+			}
+		}
+		if _, tracked := pre.ont[ad]; tracked {
+			if rel := h.mdl.releasedOf(ad); h.withdrawn[ad] > rel {
+				h.fail("%s: %s has received %d ONT from governance in total, but the calls that succeeded so far released at most %d to it (un-authorized / reduced / peer exited)",
+					a.desc, h.w.name(ad), h.withdrawn[ad], rel)
+			}
 		}
 		if paid > 0 {
 			h.class("withdraw:ok:paid>0")
